@@ -140,6 +140,38 @@ fn confidence_roundtrip(c: u8) -> Result<(), String> {
     Ok(())
 }
 
+/// A fixed corpus of Confidence and Interval values (every variant, special floats) pushed
+/// through both encoders; executed at the start of every 64th run so that it is part of a
+/// replayable trace.
+fn corpus_roundtrip() -> Result<u64, String> {
+    let mut n = 0;
+    for c in 0..N_CONF {
+        confidence_roundtrip(c).map_err(|e| format!("Confidence {}: {e}", conf_name(c)))?;
+        n += 1;
+    }
+    let f64s = [0.0f64, -0.0, 1.0, -1.5, f64::MIN_POSITIVE, 5e-324, f64::MAX, -f64::MAX, f64::INFINITY, f64::NEG_INFINITY, 0.1, 1e300];
+    for &a in &f64s {
+        for &b in &f64s {
+            iv_rt::<f64>(Interval::TwoSided(a, b)).map_err(|e| format!("Interval<f64>::TwoSided: {e}"))?;
+            iv_rt::<f32>(Interval::TwoSided(a as f32, b as f32)).map_err(|e| format!("Interval<f32>::TwoSided: {e}"))?;
+            n += 2;
+        }
+        iv_rt::<f64>(Interval::UpperOneSided(a)).map_err(|e| format!("Interval<f64>::UpperOneSided: {e}"))?;
+        iv_rt::<f64>(Interval::LowerOneSided(a)).map_err(|e| format!("Interval<f64>::LowerOneSided: {e}"))?;
+        iv_rt::<f32>(Interval::UpperOneSided(a as f32)).map_err(|e| format!("Interval<f32>::UpperOneSided: {e}"))?;
+        iv_rt::<f32>(Interval::LowerOneSided(a as f32)).map_err(|e| format!("Interval<f32>::LowerOneSided: {e}"))?;
+        n += 4;
+    }
+    for &a in &[0usize, 1, 7, usize::MAX] {
+        iv_rt::<usize>(Interval::UpperOneSided(a)).map_err(|e| format!("Interval<usize>::UpperOneSided: {e}"))?;
+        iv_rt::<usize>(Interval::LowerOneSided(a)).map_err(|e| format!("Interval<usize>::LowerOneSided: {e}"))?;
+        iv_rt::<usize>(Interval::TwoSided(a / 2, a)).map_err(|e| format!("Interval<usize>::TwoSided: {e}"))?;
+        iv_rt::<i64>(Interval::TwoSided(-(a as i64 / 4), a as i64 / 2)).map_err(|e| format!("Interval<i64>::TwoSided: {e}"))?;
+        n += 4;
+    }
+    Ok(n)
+}
+
 struct Durable {
     enc: u8,
     bytes: Vec<u8>,
@@ -189,6 +221,12 @@ pub fn exec<M: Ckpt>(tr: &Trace, stats: &mut Stats) -> (Vec<Violation>, Reach, V
             reach.shape = dg.0;
             return (vec![Violation::new("C20", &format!("{}/{}", name, $inv), $slot, $detail)], reach, fired.into_iter().collect());
         }};
+    }
+    if tr.run_index % 64 == 0 {
+        match corpus_roundtrip() {
+            Ok(n) => stats.add("corpus_value_roundtrips", n),
+            Err(e) => fail!("value-round-trip", 0, e),
+        }
     }
     for ev in &tr.events {
         dg.u64(ev.shape());
